@@ -194,15 +194,30 @@ def first_use_part(spec, ctx):
     ctx.count('filters evaluated as the first filter of a fresh interpreter', len(base))
     g, hrows = mixed_grid()
     g2, rows2, hrows2 = make_grid()
+    # two more grids of other habits - every id a plain string / every id a Ref - filtered in between: whatever one
+    # evaluation learns about *a* grid (how its ids are spelled, which kinds its cells hold) must not be carried over
+    import hszinc
+    R = hszinc.Ref
+    g3 = hszinc.Grid(version='3.0', columns=[(c, []) for c in ('id', 'val', 'r', 'q')])
+    for row in ({'id': 's1', 'val': 1.0}, {'id': 's2', 'val': 2.0, 'r': R('s1')}, {'r': R('s2'), 'q': hszinc.Quantity(1, 'kW')}, {'r': R('s1'), 'val': 5.0}):
+        g3.append(row)
+    g4 = hszinc.Grid(version='3.0', columns=[(c, []) for c in ('id', 'val', 'r', 'q')])
+    for row in ({'id': R('s1'), 'val': 1.0}, {'id': R('s2'), 'val': 2.0, 'r': R('s1')}, {'r': R('s2'), 'q': hszinc.Quantity(1, 'degF')}, {'r': R('s1'), 'val': 5.0}):
+        g4.append(row)
     fam = filter_family(300)
     r = random.Random(ctx.seed * 1000003 + 1313)
     for j in range(spec['n']):
         text = r.choice(PATH_FILTERS)
-        if r.random() < 0.3:
-            try:
+        m = r.random()
+        try:
+            if m < 0.25:
                 g2.filter(fam[r.randrange(300)][1])
-            except Exception:   # noqa
-                pass
+            elif m < 0.5:
+                g3.filter(r.choice(['r->val', 'r->val == 1', 'r->r->val', 'q > 5kW', 'val > 1']))
+            elif m < 0.75:
+                g4.filter(r.choice(['r->val', 'r->val == 2', 'r->r->val', 'q > 5degF', 'val < 3']))
+        except Exception:   # noqa
+            pass
         ctx.case('first-use', j, text)
         try:
             got = got_rows(g.filter(text), hrows)
